@@ -11,9 +11,15 @@
    value with two or more languages, each with a non-empty tag, and comes back entry for entry with its tags.
 
    The positions: name, summary, content, preferredUsername, source.content, each as the only text of an
-   actor document {"type":T, ...}; the harness also fills all five at once on the real code. *)
-From AP.Model Require Import Prelude Nlv Text.
-From AP.Proofs Require Import NlvP TextP.
+   actor document {"type":T, ...} (C06_json_single, C06_json_multi) and any subset of them - all five
+   included - in one document, each as a single value or as a language map (C06_json_all_positions,
+   Model/Text5.v); the harness fills all five at once on the real code and compares the five-position
+   writer and reader models with it (Cases_C06_five). *)
+From AP.Model Require Import Prelude Nlv Text Text5.
+From AP.Proofs Require Import NlvP TextP Text5P.
+From AP.Model Require Vocab Layout JsonTables JsonCheck JsonDec JsonCodec Shape.
+From AP.Gen Require Layout JsonR TypeLists.
+From AP.Proofs Require Text5DecP DecInstP.
 
 (* --- the codec heart: what stringBytes writes for valid UTF-8, fastjson's unescaper reads back exactly
    (with and without HTML escaping) *)
@@ -140,3 +146,82 @@ Example C06_example_document :
     = Ok [(B "en", B "a""b"); (NilRef, hx "e280a8")] /\
   string_bytes (hx "ff41") = B """\ufffdA""" /\ fj_unescape (B "\ud83d\ude00\ud83dx\q") = hx "f09f98805c7564383364785c71".
 Proof. vm_compute. auto. Qed.
+
+(* --- JSON, all positions at once.  tx gives every position its texts ([] = not set); a position may hold
+   one non-empty valid UTF-8 text (under any tag) or a language map: two or more entries with non-empty valid
+   UTF-8 tags and texts, the tags pairwise distinct.  The document Actor.MarshalJSON writes (type, name, summary, content, source, then
+   preferredUsername; single values under the term, maps under <term>Map) parses, and every position reads
+   back its own texts byte for byte - the lone entry under the default language, maps entry for entry -
+   whatever the other positions hold, whatever the state of fastjson's key cache.  Composed from the
+   per-member theorems above: Object.Get only sees the members of the name it is asked for. *)
+Theorem C06_json_all_positions : forall ku ty tx, plain_name ty -> (forall p, ok_text (tx p)) ->
+  exists rd, doc_decode5 ku (doc_encode5 ty tx) = Ok rd /\ forall p, rd p = norm_text (tx p).
+Proof. exact json_five. Qed.
+
+(* whatever else the document object holds (id, recipients, attachments, unknown members ...): a text position
+   is read from the members of its own name only - for every object, not only the ones the writer prints *)
+Theorem C06_other_members_irrelevant : forall ku kvs p,
+  get_text ku (FObj (filter (fun kv : bytes * fjv => sees p (fst kv)) kvs)) p = get_text ku (FObj kvs) p.
+Proof. exact get_text_filter. Qed.
+
+(* the writer prints exactly the document tree (no white space, members in the order of the Go code) *)
+Theorem C06_all_positions_document : forall ty tx, plain_name ty -> (forall p, ok_text (tx p)) ->
+  doc_encode5 ty tx = jprint (doc_tree5 ty tx).
+Proof. exact doc_encode5_tree. Qed.
+
+(* the one-position document of C06_json_single / C06_json_multi is the instance with the other four unset,
+   for any marshaler (the pinned one included) *)
+Theorem C06_one_position_instance : forall m ty p l, doc_encode5_gen m ty (only p l) = doc_encode_gen m ty p l.
+Proof. exact doc_encode5_only. Qed.
+
+(* non-vacuity: all five positions set, single values and maps mixed, hostile texts *)
+Definition c06_five : texts := fun p =>
+  match p with
+  | PName => [(B "en", B "<b>say ""hi""</b> \ C:\new")]
+  | PSummary => [(B "en", B "42"); (B "fr", hx "e280a8")]
+  | PContent => [(NilRef, B "{""type"":""Delete""}")]
+  | PSourceContent => [(B "en", B "\u0041"); (B "-", B "true"); (hx "c3a9", B "x")]
+  | PPreferredUsername => [(B "xx", hx "f09f9880")]
+  end.
+Example C06_all_positions_example :
+  plain_name (B "Person") /\ (forall p, ok_text (c06_five p)) /\
+  doc_encode5 (B "Person") c06_five
+    = B "{""type"":""Person"",""name"":""<b>say \""hi\""</b> \\ C:\\new"",""summaryMap"":{""en"":""42"",""fr"":""\u2028""},""content"":""{\""type\"":\""Delete\""}"",""source"":{""contentMap"":{""en"":""\\u0041"",""-"":""true"",""" ++ hx "c3a9" ++ B """:""x""}},""preferredUsername"":""" ++ hx "f09f9880" ++ B """}" /\
+  (forall ku p, match doc_decode5 ku (doc_encode5 (B "Person") c06_five) with Ok rd => rd p = norm_text (c06_five p) | _ => False end).
+Proof.
+  split; [vm_compute; reflexivity|]. split.
+  - intros p. destruct p.
+    + right; left. eexists; eexists. split; [reflexivity|]. split; [vm_compute; reflexivity|discriminate].
+    + right; right. split; [simpl; lia|]. split; [repeat constructor; try discriminate; vm_compute; reflexivity|].
+      repeat constructor; vm_compute; intuition discriminate.
+    + right; left. eexists; eexists. split; [reflexivity|]. split; [vm_compute; reflexivity|discriminate].
+    + right; left. eexists; eexists. split; [reflexivity|]. split; [vm_compute; reflexivity|discriminate].
+    + right; right. split; [simpl; lia|]. split; [repeat constructor; try discriminate; vm_compute; reflexivity|].
+      repeat constructor; vm_compute; intuition discriminate.
+  - split; [vm_compute; reflexivity|]. intros ku p. destruct ku, p; vm_compute; reflexivity.
+Qed.
+
+(* --- the same document through the whole decoder model (Model/JsonDec.v: dec, the function C01 / C05 compare
+   with activitypub.UnmarshalJSON): whenever it decodes to a struct value, every natural-language field read
+   under the term of a position (name, summary, content, preferredUsername) holds that position's texts, and
+   is unset when the position is.  Generic over the read tables (Text5DecP.five_dec under reads_ok), instantiated in Proofs/DecInstP.v with
+   the tables regenerated from the source (reads_ok_inst, the obligation C05_reads_ok).  source.content goes through the GetAPSource leaf table and is covered by
+   C06_json_all_positions (get_source_content) and by the example below only. *)
+Theorem C06_json_all_positions_decoder : forall ty tx p k fs, plain_name ty -> (forall q, ok_text (tx q)) ->
+  JsonCodec.dec (doc_encode5 ty tx) = Some (Ok (Vocab.IObj p k fs)) ->
+  forall rs r q, JsonCheck.reads_of JsonR.jr_tables k = Some rs -> In r rs ->
+    JsonCheck.rf_getter r = B "JSONGetNaturalLanguageField" -> JsonCheck.rf_guard r = [] ->
+    JsonCheck.rf_term r = pos_term q -> q <> PSourceContent ->
+    Vocab.getf (JsonCheck.rf_fid r) fs = match tx q with [] => None | l => Some (Vocab.FNlv (Some (norm_text l))) end.
+Proof. exact DecInstP.five_dec_inst. Qed.
+
+Example C06_all_positions_decoder_example :
+  JsonCodec.dec (doc_encode5 (B "Person") c06_five)
+  = Some (Ok (Vocab.IObj true Vocab.KActor
+       [(Vocab.F_Type, Vocab.FStr (B "Person"));
+        (Vocab.F_Name, Vocab.FNlv (Some [(NilRef, B "<b>say ""hi""</b> \ C:\new")]));
+        (Vocab.F_Content, Vocab.FNlv (Some [(NilRef, B "{""type"":""Delete""}")]));
+        (Vocab.F_Summary, Vocab.FNlv (Some [(B "en", B "42"); (B "fr", hx "e280a8")]));
+        (Vocab.F_Source, Vocab.FSource [] (Some [(B "en", B "\u0041"); (B "-", B "true"); (hx "c3a9", B "x")]));
+        (Vocab.F_PreferredUsername, Vocab.FNlv (Some [(NilRef, hx "f09f9880")]))])).
+Proof. vm_compute. reflexivity. Qed.
